@@ -133,6 +133,13 @@ func putLock(x *world, k, id int, exp uint64) {
 		}
 	}
 	if err == nil {
+		if !m.anyLive() {
+			// protection starts here: an object that is physically gone by now (e.g. the copy of an
+			// expired, unprotected object was dropped when its repeated put was refused) is not stored
+			if _, berr := x.w.FST.GetBytes(ss.Addr(R)); berr != nil {
+				m.stored = false
+			}
+		}
 		if m.tomb && !m.locks[k].accepted { // a repeated put of an already stored lock is a duplicate, not a new lock
 			m.fail("lock-accepted-for-already-tombstoned-object", strings.Join(m.Trace, " "))
 		}
